@@ -35,7 +35,9 @@ try:
                 s = open(p).read().replace('"/repo/', f'"{scratch}/repo/').replace("/verif/harness/target", scratch + "/target")
                 open(p, "w").write(s)
     if os.path.isdir(os.path.join(root, "harness", "target")):
-        subprocess.check_call(["cp", "-a", os.path.join(root, "harness", "target"), scratch + "/target"])
+        # best effort seed of the build cache (files may vanish while another build is running)
+        subprocess.call(["rsync", "-a", "--ignore-missing-args", os.path.join(root, "harness", "target") + "/", scratch + "/target/"],
+                        stderr=subprocess.DEVNULL)
     env = dict(os.environ, VERIF_SCRATCH=scratch, VERIF_HARNESS=scratch + "/harness", VERIF_TARGET=scratch + "/target")
     pr = subprocess.run([os.path.join(root, "check.py"), pid, "--tier", tier], env=env, capture_output=True, text=True)
     print(pr.stdout[-6000:])
